@@ -354,6 +354,7 @@ type c05Arr struct {
 }
 
 type c05Wire struct {
+	Opt vfOptMix `json:"opt,omitempty"` // options that must not matter here
 	IL   bool     `json:"il"`
 	RBuf int      `json:"rbuf"`
 	TSN  uint32   `json:"tsn"` // puppet's initial TSN
@@ -367,6 +368,7 @@ func genC05Wire(rt *rapid.T) c05Wire {
 	}
 	w := int(vfWindowFor(sc.RBuf))
 	sc.TSN = genTSN(rt, "tsn", uint32(w))
+	sc.Opt = genOptMix(rt, "opt")
 	n := rapid.IntRange(1, 40).Draw(rt, "n")
 	for i := 0; i < n; i++ {
 		a := c05Arr{GapMs: rapid.SampledFrom([]int{0, 0, 1, 5, 50, 250, 1000}).Draw(rt, "gapms"), N: 1}
@@ -402,6 +404,7 @@ func genC05Wire(rt *rapid.T) c05Wire {
 func runC05Wire(t *testing.T, sc c05Wire, verbose bool) (c vfCase) {
 	var e1 vfE1
 	e1.Cfg[0] = vfSideCfg{IL: sc.IL, TSN: 1000, RBuf: sc.RBuf, RTOMax: 2000}
+	sc.Opt.apply(&e1.Cfg[0])
 	e1.Cfg[1] = vfSideCfg{IL: sc.IL, TSN: sc.TSN}
 	panicMsg := vfBubble(t, func() {
 		s := newVfSim(t, &e1, verbose)
@@ -582,5 +585,8 @@ func runC05Wire(t *testing.T, sc c05Wire, verbose bool) (c vfCase) {
 
 func TestVF_C05(t *testing.T) {
 	vfExplore(t, "C05", "model", vfN(40000, 1200000), genC05, runC05Model)
+	// small receive buffers with a reader that does not read (the scenario generator of C11's
+	// hostile sender): whatever is stored, also a gap filler at zero window, must be recorded
+	vfExplore(t, "C05", "zero-window", vfN(1600, 40000), genC11Wire, func(sc c11Wire) vfCase { return runC11WireX(t, sc, vfEnv.Replay != "", true) })
 	vfExplore(t, "C05", "wire", vfN(4000, 120000), genC05Wire, func(sc c05Wire) vfCase { return runC05Wire(t, sc, vfEnv.Replay != "") })
 }
